@@ -371,7 +371,7 @@ func TestVerif_C14(t *testing.T) {
 	entries := []string{"runtime", "config", "aborted-rw-return"}
 	stages := []string{"untouched", "one-pass", "container-record-pending", "drained"}
 	firstModes := []mode.Mode{mode.ReadOnly, mode.DegradedReadOnly}
-	dwellLeft := r.Pick(8, 40)
+	dwellLeft := r.Pick(3, 20)
 
 	for ci := 0; ci < nCases; ci++ {
 		rng := r.Rand("case", ci)
@@ -506,6 +506,14 @@ func TestVerif_C14(t *testing.T) {
 			}
 			return recordPending, deadObjs, garbageObjs, true
 		}
+		fillTimer := realTimer && entry != "config"
+		if fillTimer {
+			// the 3 ms GC timer of this shard already works on the backlog in read-write; manual
+			// passes next to it would only race with the timer's pass (removeGarbage is written
+			// for a single caller), the backlog at entry is whatever the timer has left
+			stage = "left-to-timer"
+			desc["gc_backlog_stage"] = stage
+		}
 		switch stage {
 		case "one-pass":
 			sh.removeGarbage()
@@ -584,6 +592,7 @@ func TestVerif_C14(t *testing.T) {
 			if phase == 0 {
 				how = entry
 			}
+			var stopped *vf14Snap
 			var serr error
 			if how == "config" {
 				// the node is stopped and started again with the mode in the shard's configuration
@@ -593,6 +602,14 @@ func TestVerif_C14(t *testing.T) {
 					return
 				}
 				shClosed = true
+				// the persisted state the stopped shard leaves behind is what the read-only
+				// period starts from: the restarted shard is in mode m from its very first moment
+				// (its background workers start inside Init, before Init returns)
+				if stopped, err = env.snapshot(); err != nil {
+					r.Inconclusive(fmt.Sprintf("case %d: snapshot of the stopped shard: %v", ci, err))
+					_ = os.RemoveAll(dir)
+					return
+				}
 				var oerr error
 				if r.Guard(desc, func() { oerr = env.open(realTimer, WithMode(m)) }) {
 					violated = true
@@ -655,6 +672,14 @@ func TestVerif_C14(t *testing.T) {
 				r.Inconclusive(fmt.Sprintf("case %d: snapshot: %v", ci, err))
 				break
 			}
+			if stopped != nil {
+				r.Count("snapshot_comparisons", 1)
+				for _, c := range vf14Diff(stopped, s0) {
+					r.Violation(fmt.Sprintf("state-changed|%s|entry=%s|write-cache=%v|%s", m, how, withWC, c.comp), fmt.Sprintf("persisted %s state changed (%s) between the stop of the shard and the end of its start-up in configured mode %s: %s", c.comp, c.shape, m, c.detail), desc)
+					r.Seen("state_change_shapes", c.comp+"|"+c.shape)
+					r.Count("state_changes_reported", 1)
+				}
+			}
 			r.Count("snapshots_files", len(s0.files))
 			r.Count("snapshots_meta_kv", s0.nKV)
 			if s0.own {
@@ -681,7 +706,6 @@ func TestVerif_C14(t *testing.T) {
 			nSteps := 40 + rng.IntN(r.Pick(40, 80))
 			const nKinds = 22
 			order := rng.Perm(nKinds) // every step kind at least once in every mode period
-			nChanges := 0
 			var trace []string
 			for step := 0; step < nSteps && !violated; step++ {
 				kind, class := "", ""
@@ -886,13 +910,15 @@ func TestVerif_C14(t *testing.T) {
 
 				// dwell until the write-cache flush scheduler (1 s ticker) has handed a batch to a
 				// flush worker and the worker is done with it - a logical condition observed at the
-				// repository's instrumentation point, not a sleep of a fixed length; if the generous
-				// watchdog fires the run just goes on (no verdict depends on it)
-				if withWC && nWC > 0 && dwellLeft > 0 && step == nSteps/2 {
-					dwellLeft--
+				// repository's instrumentation point, not a sleep of a fixed length; the wait is bounded
+				// (~4 s) and when the bound is hit the run just goes on: no verdict depends on it
+				if withWC && nWC > 0 && step == nSteps/2 && (how == "config" || dwellLeft > 0) {
+					if how != "config" { // periods entered by restart always dwell, the others share a budget
+						dwellLeft--
+					}
 					c0 := hooks.Counts()["writecache.worker.done"]
 					seen := false
-					for i := 0; i < 12000 && !seen; i++ {
+					for i := 0; i < 800 && !seen; i++ {
 						time.Sleep(5 * time.Millisecond)
 						seen = hooks.Counts()["writecache.worker.done"] > c0
 					}
@@ -913,13 +939,12 @@ func TestVerif_C14(t *testing.T) {
 				r.Count("snapshot_comparisons", 1)
 				if chg := vf14Diff(s0, s1); len(chg) > 0 {
 					for _, c := range chg {
-						r.Violation(fmt.Sprintf("state-changed|%s|entry=%s|%s|%s", m, how, c.comp, c.shape), fmt.Sprintf("persisted %s state changed while the shard was %s (entered by %s; seen after step %d %s:%s): %s", c.comp, m, how, step, kind, class, c.detail), stepDesc())
+						r.Violation(fmt.Sprintf("state-changed|%s|entry=%s|write-cache=%v|%s", m, how, withWC, c.comp), fmt.Sprintf("persisted %s state changed (%s) while the shard was %s (entered by %s; seen after step %d %s:%s): %s", c.comp, c.shape, m, how, step, kind, class, c.detail), stepDesc())
+						r.Seen("state_change_shapes", c.comp+"|"+c.shape)
 					}
 					// go on from the new state so that later, different changes are reported too
 					s0 = s1
-					if nChanges++; nChanges >= 4 {
-						violated = true
-					}
+					r.Count("state_changes_reported", 1)
 				}
 			}
 		}
@@ -931,7 +956,7 @@ func TestVerif_C14(t *testing.T) {
 	if r.Counter("modifying_requests") == 0 || r.Counter("snapshot_comparisons") == 0 {
 		r.Inconclusive("nothing was monitored")
 	}
-	if r.Counter("entries_by_restart_with_configured_mode") == 0 || r.Counter("mode_entries_with_writable_metabase_handle") == 0 {
+	if r.Counter("entries_by_restart_with_configured_mode") == 0 {
 		r.Inconclusive("no read-only period entered by restart with a configured mode was monitored")
 	}
 }
